@@ -23,9 +23,9 @@ VERIF = os.path.dirname(os.path.dirname(os.path.abspath(__file__)))
 PY = sys.executable
 
 TIERS = {
-    'C16': {'quick': {'runs': 2400, 'det': 48, 'sweeps': 13},
+    'C16': {'quick': {'runs': 2400, 'det': 48, 'sweeps': 13, 'max_seconds': 700},
             'thorough': {'runs': 60000, 'det': 512, 'sweeps': 400, 'max_seconds': 5000}},
-    'C17': {'quick': {'runs': 6000, 'det': 48, 'fresh': 16},
+    'C17': {'quick': {'runs': 6000, 'det': 48, 'fresh': 16, 'max_seconds': 700},
             'thorough': {'runs': 400000, 'det': 512, 'fresh': 300, 'max_seconds': 5000}},
 }
 
